@@ -198,6 +198,27 @@ def edits():
         touched.update(p.name for p in sel)
         return pm.unfix_parameters(m, [p.name for p in sel])
 
+    def e_change_and_remove(m, r, touched):
+        # ONE update that changes a theta and removes the theta directly after it
+        from pharmpy.model import Parameters
+
+        s = m.statements.find_assignment("S")
+        names = [p.name for p in thetas(m)]
+        syms = sorted(x.name for x in s.expression.free_symbols if x.name in names)
+        cands = [v for v in syms if names.index(v) > 0]
+        if not cands:
+            raise ValueError("no removable theta")
+        victim = r.choice(cands)
+        prev = m.parameters[names[names.index(victim) - 1]]
+        v = round(prev.init * 1.5 + 0.03, 4)
+        if not (prev.lower < v < prev.upper) or prev.fix:
+            raise ValueError("no admissible value")
+        st = m.statements.reassign("S", s.expression.subs({victim: 0}))
+        pars = Parameters.create([p.replace(init=v) if p.name == prev.name else p for p in m.parameters if p.name != victim])
+        touched.add(victim)
+        touched.add(prev.name)
+        return m.replace(statements=st, parameters=pars).update_source()
+
     def e_error(m, r, touched):
         f = r.choice([pm.set_additive_error_model, pm.set_proportional_error_model, pm.set_combined_error_model])
         touched.add("__eps__")
@@ -207,7 +228,7 @@ def edits():
         "set_init_theta": e_init, "set_init_omega": e_init_omega, "set_lower": e_lower, "set_upper": e_upper,
         "fix": e_fix, "unfix": e_unfix, "fix_to": e_fix_to, "add_theta": e_add_theta, "remove_theta": e_remove_theta,
         "add_iiv": e_add_iiv, "remove_iiv": e_remove_iiv, "join": e_join, "split": e_split, "error_model": e_error,
-        "fix_rv": e_fix_rv, "unfix_rv": e_unfix_rv,
+        "fix_rv": e_fix_rv, "unfix_rv": e_unfix_rv, "change_and_remove_theta": e_change_and_remove,
     }
 
 
@@ -302,6 +323,8 @@ def run_edits(c, text, seq, seed, plan=None):
             mm.model = model
             mm.applied = list(applied)
             mm.plan = list(done_plan)
+            mm.touched = set(touched)
+            mm.orig_names = list(orig_names)
             raise
     return applied, judged, model, done_plan
 
@@ -564,18 +587,31 @@ def classify(mm, orig_text, applied, model, replay=None):
             if ok:
                 return "C04/omega-scaled-block-respelled"
         return None
+    # Preconditions of the listed mechanisms (what the finding says fails), on top of the replay delta check: an edit
+    # sequence that does not contain the failing kind of edit cannot be attributed to them.
+    touched = getattr(mm, "touched", set())
+    orig_names = getattr(mm, "orig_names", [])
+    sp = theta_spellings(orig_text)
+    groups = {}
+    for pos, d in enumerate(sp):
+        groups.setdefault(d["item"], []).append(pos)
+    xn_members = {orig_names[pos] for g in groups.values() if len(g) > 1 for pos in g if pos < len(orig_names)}
+    removes_theta = "remove_theta" in applied or "change_and_remove_theta" in applied
+    edits_xn_member = bool(touched & xn_members)
     if multi and replay is not None and ("THETA(" in what or "number of thetas" in what or "[reread] parameter" in what
                                          or "cannot be read back" in what):
         try:
-            if replay(expand_layout(orig_text)):
-                if re.search(r"\)\s*x\s*\d", thetas_txt):
-                    return "C04/theta-xn-item-edit"
+            has_xn = bool(re.search(r"\)\s*x\s*\d", thetas_txt))
+            if has_xn and (edits_xn_member or removes_theta) and replay(expand_layout(orig_text)):
+                return "C04/theta-xn-item-edit"
+            if removes_theta and replay(expand_layout(orig_text)):
                 return "C04/theta-multi-item-record-edit"
         except Exception:
             pass
     multi_omega = any(not re.search(r"\bBLOCK\b", c, re.I) and len(R.parse_omega_records([c])) > 1
                       for n, c in R.split_records(orig_text) if n in ("OMEGA", "SIGMA"))
-    if multi_omega and replay is not None:
+    restructures = any(a in ("join", "split", "remove_iiv", "add_iiv") for a in applied)
+    if multi_omega and restructures and replay is not None:
         try:
             if replay(expand_layout(orig_text, thetas=False, omegas=True)):
                 return "C04/omega-multi-value-record-restructure"
